@@ -1,4 +1,5 @@
 mod c04;
+mod c15;
 mod common;
 mod gen;
 mod inputs;
@@ -52,6 +53,7 @@ fn main() {
 	let gen_rule = "for each registry type (see distribution.registry_types): seeded boundary-biased values (lengths 0,1,2,63..65,16383..16385 and around multiples of 16384/size_of::<T>, wrapped deques, bit sequences with head offsets, class boundaries of every integer width) and, for decode-driven properties, each valid encoding plus structured mutations (bit flip, boundary byte, truncation, extension, count tampering at the front and inside, splice, count+-1, invalid utf8/tag bytes) and random strings; non-trivial = non-empty input; distinct by hash of the whole case term (type, input, layers, implementation result)";
 	match args[1].as_str() {
 		"c04" => c04::run(&a),
+		"c15" => c15::run(&a),
 		"c01" => run_generic(Mode::C01, &a, "c01", gen_rule),
 		"c02" => run_generic(Mode::C02, &a, "c02", gen_rule),
 		"c03" => run_generic(Mode::C03, &a, "c03", gen_rule),
